@@ -11,6 +11,10 @@ CHECKS = {
                 text="Every BiMap method is symbolically executed from the real source against whole-view contracts (class invariant 'fwd and bck are exact inverses', full-view postconditions, frame, exceptional postconditions); all obligations are discharged by z3 for all keys/values/states; by induction over call sequences the bijection holds after every history. An exhaustive small-universe state-space run of the real class under the same contracts is a differential check of the encoding only.",
                 note=TRUST + "; cardinality lemma card_image (Lean/Mathlib-checked in the thorough tier); MutableMapping mixins use only the abstract methods.",
                 technique="contract-based deductive verification: VCs generated from the AST of hugr/utils.py, discharged by z3 (cvc5 fallback)"),
+    "C16": dict(cat="other", design="5/C16",
+                text="hugr/hugr/node_port.py is verified deductively for all output counts n >= 0, all integers and all slices with positive step: _normalize_index, _index (int and slice variants), __getitem__, outputs, __iter__, out_port, inp, out against contracts transcribed from the statement (Python index meaning, CPython slice adjustment, IndexError/ValueError conditions), plus a lemma that ==/hash of nodes and ports are by index and offset only (derived from the dataclass flags in the AST). The clause about handles returned by the graph and the builders is covered by a bounded stand-in (one program per entry point), hence category other rather than proof.",
+                note=TRUST + "; generators abstracted by the sequence they yield (element production proved not to raise); handle counts through base.py / build/*.py bounded only.",
+                technique="contract-based deductive verification (VCs from the AST, z3/cvc5) + labelled bounded stand-in for the builder handle counts"),
 }
 
 NOT_APPLICABLE = {
